@@ -152,6 +152,24 @@ MV gen_mv(Rng& r, const GenProfile& p, unsigned depth) {
   return v;
 }
 
+MV deep_mv(Rng& r, unsigned depth) {
+  MV leaf; GenProfile gp; gp.max_depth = 0; leaf = gen_mv(r, gp, 99);
+  MV cur = leaf;
+  for (unsigned i = 0; i < depth; i++) {
+    MV w;
+    switch (r.below(6)) {
+      case 0: w.kind = MK_TAG; w.val = gen_u64(r); w.kids.push_back(std::move(cur)); break;
+      case 1: w.kind = MK_ARRAY; w.definite = true; w.kids.push_back(std::move(cur)); break;
+      case 2: w.kind = MK_ARRAY; w.definite = false; if (r.chance(1, 3)) { MV e; e.kind = MK_ARRAY; e.definite = true; w.kids.push_back(e); } w.kids.push_back(std::move(cur)); break;
+      case 3: { w.kind = MK_MAP; w.definite = true; MV k; k.kind = MK_UINT; k.width = 1; k.val = i & 0xff; w.kids.push_back(k); w.kids.push_back(std::move(cur)); break; }
+      case 4: { w.kind = MK_MAP; w.definite = false; MV k; k.kind = MK_UINT; k.width = 1; k.val = 1; w.kids.push_back(std::move(cur)); w.kids.push_back(k); break; }   // child in key position
+      default: { w.kind = MK_ARRAY; w.definite = true; MV z; z.kind = MK_CTRL; z.val = 22; w.kids.push_back(z); w.kids.push_back(std::move(cur)); }
+    }
+    cur = std::move(w);
+  }
+  return cur;
+}
+
 // ---------------------------------------------------------------- crash attribution
 static void emit_inflight(const char* why) {
   char buf[160]; int n = snprintf(buf, sizeof buf, "\nINFLIGHT idx=%llu why=%s\n", (unsigned long long)g_inflight, why);
@@ -167,7 +185,7 @@ extern "C" void __sanitizer_set_death_callback(void (*)(void)) __attribute__((we
 static void on_sanitizer_death() { emit_inflight("SANITIZER"); }
 
 extern "C" __attribute__((used, visibility("default"))) const char* __asan_default_options() {
-  return "exitcode=77:detect_leaks=0:allocator_may_return_null=1:handle_abort=0:handle_segv=1:abort_on_error=0:detect_stack_use_after_return=0:max_allocation_size_mb=512";
+  return "exitcode=77:detect_leaks=0:allocator_may_return_null=1:handle_abort=0:handle_segv=1:abort_on_error=0:detect_stack_use_after_return=0:max_allocation_size_mb=512:quarantine_size_mb=32";
 }
 extern "C" __attribute__((used, visibility("default"))) const char* __ubsan_default_options() { return "exitcode=77:print_stacktrace=1:halt_on_error=1"; }
 extern "C" __attribute__((used, visibility("default"))) const char* __tsan_default_options() { return "exitcode=66:halt_on_error=1:report_signal_unsafe=0:history_size=4:ignore_interceptors_accesses=1:ignore_noninstrumented_modules=0"; }
